@@ -4,8 +4,8 @@ package storage
 // random histories of put/delete/flush over stacks of cache layers on each backend, every
 // range scan compared with a single ordered reference map. Bound: keys of 1..4 bytes over a
 // 3-letter alphabet under two 1-byte prefixes, up to 3 layers, up to 40 operations per
-// history, one put in eight stores an empty value, every scan is made three times (synchronous with full
-// keys, stopped by the consumer after a random number of entries, asynchronous with the prefix cut), VERIF_BOUNDED_ITERS histories per backend (default 400),
+// history, one put in eight stores an empty value, every scan is made four times (synchronous with full
+// keys, stopped by the consumer after a random number of entries, limited to a random number of cache layers, asynchronous with the prefix cut), VERIF_BOUNDED_ITERS histories per backend (default 400),
 // seed VERIF_SEED.
 
 import (
@@ -160,6 +160,39 @@ func TestVerifBoundedC09(t *testing.T) {
 					}
 					if !ok {
 						t.Fatalf("FAILING-INPUT backend=%s history=%v seek{prefix=%x start=%x backwards=%v} got %x want %x", name, hist, rng.Prefix, rng.Start, rng.Backwards, got, want)
+					}
+					// a scan limited to the top d cache layers (SearchDepth d): what those d layers hold
+					// themselves, upper ones shadowing lower ones, deletion marks included
+					{
+						d := 1 + r.Intn(len(layers))
+						own := map[string][]byte{}
+						for li := len(layers) - 1; li >= len(layers)-d; li-- {
+							for _, mm := range []map[string][]byte{layers[li].mem, layers[li].stor} {
+								for k, v := range mm {
+									if _, seen := own[k]; !seen {
+										own[k] = v
+									}
+								}
+							}
+						}
+						vis := map[string][]byte{}
+						for k, v := range own {
+							if v != nil {
+								vis[k] = v
+							}
+						}
+						wantD := verifRefSeek(vis, rng)
+						rd := rng
+						rd.SearchDepth = d
+						var gotD []string
+						top.Seek(rd, func(k, v []byte) bool { gotD = append(gotD, string(k)); return true })
+						ok = len(gotD) == len(wantD)
+						for i := 0; ok && i < len(gotD); i++ {
+							ok = gotD[i] == wantD[i]
+						}
+						if !ok {
+							t.Fatalf("FAILING-INPUT backend=%s history=%v seek{prefix=%x start=%x backwards=%v depth=%d of %d layers} got %x want %x", name, hist, rng.Prefix, rng.Start, rng.Backwards, d, len(layers), gotD, wantD)
+						}
 					}
 					// a scan the consumer stops early: exactly the first entries, nothing after the stop
 					if len(want) > 0 {
